@@ -35,7 +35,7 @@ m = {
               "source_commits": [], "add_only": True},
     "engines": [
         {"name": "axfacts", "path": "/verif/axfacts", "serves_properties": sorted(CLAIMS), "kind_free_text": "rustc_private driver (nightly) dumping type-checked MIR, resolved callees, dominators, ADTs, impls, consts of /repo's current tree as JSONL"},
-        {"name": "axv", "path": "/verif/axv", "serves_properties": sorted(CLAIMS), "kind_free_text": "Python rule engine: must-pass-through, dominance, who-may-call, table agreement, def-use/taint, lock-class order, panic surface over the facts"},
+        {"name": "axv", "path": "/verif/axv", "serves_properties": sorted(CLAIMS), "kind_free_text": "Python rule engine: must-pass-through, dominance, who-may-call, table agreement, def-use/taint with field-sensitive provenance, lock-class order, panic surface, decision-table extraction, path search with constant facts (enum variants, flags, aggregates) over the facts; every rule is evaluated on the plain MIR and on views with same-file helpers inlined, a report needs both"},
     ],
     "checks": checks,
     "not_applicable": na,
